@@ -191,6 +191,38 @@ def run(ctx, anchors=None):
                  "the P2SH section is listed iff (flags & P2SH) && scriptPubKey is the P2SH template - the stepper's predicate",
                  "the P2SH section is listed under `%s` but the stepper enters it under (flags & SCRIPT_VERIFY_P2SH) && <P2SH template>: "
                  "the listing shows a section that never runs (or hides one that does)" % " && ".join(cj))
+    # ---- R12.6 the second listing (left column of the dual-stack display, rebuilt on every command) agrees with the first
+    ctx.rule("R12.6", "the dual-stack display builds its section list like the numbered listing: same headers in the same order, same P2SH predicate, commitment lines from Description()")
+    pds = fb.fn("print_dualstack")
+
+    def header_literals(func, var):
+        out = []
+        for n in func.nodes():
+            if n["k"] == "mcall" and n.get("n") == "push_back" and astq.estr(n.get("obj")) == var:
+                ls = [x["s"] for x in walk(n["args"][0]) if x["k"] == "str"]
+                out.append(ls[0] if ls else "?")
+        return out
+    h1 = header_literals(main, "script_headers")
+    common.require_names(pds, ["headers", "scripts", "has_p2sh"], "R12.6")
+    h2 = header_literals(pds, "headers")
+    ctx.site()
+    ctx.inst(h1 == h2 and len(h1) >= 3, "R12.6", "same-section-headers", pds.loc(), "both listings use the sections %s" % h1,
+             "the numbered listing has the sections %s but the dual-stack display has %s: the two views of the script disagree" % (h1, h2))
+
+    def p2sh_pred(func):
+        for n in func.nodes():
+            if n["k"] == "if" and any(x["k"] == "assign" and astq.estr(x["lhs"]) == "has_p2sh" for x in walk(n["then"])):
+                cj = sorted(astq.estr(c).replace("instance.", "").replace("env->", "") for c in S.conjuncts(n["cond"]))
+                if any("successor_script" in c for c in cj):
+                    return cj
+        return None
+    p1, p2 = p2sh_pred(main), p2sh_pred(pds)
+    ctx.site()
+    ctx.inst(p1 is not None and p1 == p2, "R12.6", "same-p2sh-predicate", pds.loc(), "both listings show the P2SH section under %s" % p1,
+             "the numbered listing shows the P2SH section under %s, the dual-stack display under %s" % (p1, p2))
+    sv = fb.fn("svprintscripts")
+    uses_desc = any(n["k"] == "mcall" and n.get("n") == "Description" for n in sv.nodes())
+    ctx.inst(uses_desc, "R12.6", "commitment-lines-from-description", sv.loc(), "the dual-stack display lists the commitment steps from the same Description()")
     # ---- R12.4 (shared)
     from .. import report
     sub = report.Ctx("C04", ctx.tier, fb, prog, ctx.seed)
@@ -220,6 +252,8 @@ def run(ctx, anchors=None):
 
 
 MUTANTS = [
+    dict(name="dualstack-p2sh-without-flag", file="functions.cpp", find="        if ((env->flags & SCRIPT_VERIFY_P2SH) && env->successor_script.IsPayToScriptHash()) {", replace="        if (env->successor_script.IsPayToScriptHash()) {", expect=["R12.6:same-p2sh-predicate"]),
+    dict(name="dualstack-header-differs", file="functions.cpp", find="        headers.push_back(\"<<< scriptPubKey >>>\");", replace="        headers.push_back(\"\");", expect=["R12.6:same-section-headers"]),
     dict(name="header-not-counted", file="btcdeb.cpp", find="        script_headers.push_back(\"<<< scriptPubKey >>>\");\n        count++;", replace="        script_headers.push_back(\"<<< scriptPubKey >>>\");", expect=["R12.1:header-counted"]),
     dict(name="p2sh-ops-not-counted", file="btcdeb.cpp", find="        it = p2sh_script.begin();\n        while (p2sh_script.GetOp(it, opcode, vchPushValue)) ++count;\n", replace="", expect=["R12.1:ops-counted"]),
     dict(name="extra-description-line", file="debugger/interpreter.cpp", find="    // one line per step of Iterate(): the tweak is applied and checked in a single step\n", replace="    rv.push_back(strprintf(\"Tweak: %s\", m_p.ToString().c_str()));\n", expect=["R12.2:described==executed"]),
